@@ -2,7 +2,7 @@
 
 Only syntax: no semantics here.  Everything the engine executes comes from this text, which is
 regenerated from /repo's working tree on every run."""
-import re
+import os, re
 
 # ----------------------------------------------------------------------------- helpers
 OPEN, CLOSE = "([{<", ")]}>"
@@ -383,7 +383,7 @@ def _split_call(callx):
 # ----------------------------------------------------------------------------- functions
 class Fn:
     __slots__ = ("name", "crate", "params", "ret", "locals", "raw_blocks", "_blocks", "promoted",
-                 "header", "is_const", "closure_tag", "sig", "closures")
+                 "header", "is_const", "closure_tag", "sig", "closures", "closure_ops")
 
     def __init__(self, name, crate):
         self.name, self.crate = name, crate
@@ -391,6 +391,7 @@ class Fn:
         self.raw_blocks, self._blocks, self.promoted = {}, {}, {}
         self.header, self.is_const, self.closure_tag = "", False, None
         self.closures = {}
+        self.closure_ops = {}      # dest local -> full operand list of a closure aggregate (from the stable-mir dump)
 
     def block(self, bb):
         b = self._blocks.get(bb)
@@ -399,7 +400,13 @@ class Fn:
             stmts = []
             for ln in lines[:-1]:
                 st = parse_stmt(ln)
-                if st is not None: stmts.append(st)
+                if st is not None:
+                    if st[0] == "assign" and st[2][0] == "agg" and st[2][1].startswith("{closure@") and st[1][0] == "local":
+                        full = self.closure_ops.get(st[1][1])
+                        if full is not None and len(full) != len(st[2][2]):
+                            # the default MIR printer lists one operand per captured ROOT variable only
+                            st = ("assign", st[1], ("agg", st[2][1], [parse_operand(o) for o in full], st[2][3]))
+                    stmts.append(st)
             b = (stmts, parse_term(lines[-1]))
             self._blocks[bb] = b
         return b
@@ -421,9 +428,29 @@ def _join_multiline(body_lines):
     return out
 
 
-def parse_file(path, crate):
+def parse_stable_closures(path):
+    """{fn name: [ {dest: [operands]} per occurrence ]} from a `-Zunpretty=stable-mir` dump"""
+    out = {}
+    if not path or not os.path.exists(path): return out
+    cur = None
+    for line in open(path):
+        if line.startswith("fn "):
+            i = _find_params_open(line) if "(" in line else -1
+            name = line[3:i] if i > 0 else line[3:].strip()
+            cur = {}
+            out.setdefault(name, []).append(cur)
+        elif cur is not None:
+            mm = re.match(r"\s+(_\d+) = \{closure@[^}]*\}\((.*)\);\s*$", line)
+            if mm:
+                cur[mm.group(1)] = [x for x in split_top(mm.group(2)) if x]
+    return out
+
+
+def parse_file(path, crate, stable_path=None):
     """Returns {name: Fn} for every fn / const / static / promoted in the dump."""
     txt = open(path).read()
+    stable = parse_stable_closures(stable_path)
+    occ = {}
     fns = {}
     last_by_name = {}
     # items start at column 0 with fn/const/static and end with a line "}" at column 0
@@ -442,6 +469,10 @@ def parse_file(path, crate):
             ret = ret[2:].strip() if ret.startswith("->") else "()"
             f = Fn(name, crate)
             f.header = head
+            if name in stable:
+                k = occ.get(name, 0)
+                occ[name] = k + 1
+                if k < len(stable[name]): f.closure_ops = stable[name][k]
             for p in split_top(params_txt):
                 if not p: continue
                 k, t = p.split(": ", 1)
